@@ -355,7 +355,95 @@ Theorem transpose_refuted :
 Proof.
   exists d26_witness, 0, 3. eexists. split; [|split].
   - apply (wf_stack 0 [2; 3; 1] [Leaf 0 [2; 3; 1]; Leaf 1 [2; 3; 1]] [2; 3; 1]); [discriminate| |cbn; lia].
-    repeat constructor.
+    wf_lit.
   - vm_compute. reflexivity.
   - vm_compute. discriminate.
 Qed.
+
+(* ---------- unsqueeze *)
+Lemma insert_insert_comm (bs : list Z) sd d n : (sd <= List.length bs)%nat -> (d <= S (List.length bs))%nat ->
+  let md := if (sd <? d)%nat then (d - 1)%nat else d in
+  let nsd := if (sd <? d)%nat then sd else S sd in
+  insert_at nsd n (insert_at md 1 bs) = insert_at d 1 (insert_at sd n bs).
+Proof.
+  intros Hsd Hd md nsd. apply list_ext. intros k. subst md nsd.
+  destruct (sd <? d)%nat eqn:E; [apply Nat.ltb_lt in E|apply Nat.ltb_ge in E].
+  - rewrite (nth_error_insert_at sd n (insert_at (d - 1) 1 bs)) by (rewrite insert_at_length; lia).
+    rewrite (nth_error_insert_at d 1 (insert_at sd n bs)) by (rewrite insert_at_length; lia).
+    rewrite !nth_error_insert_at by lia. nat_cases; try lia; try reflexivity; f_equal; lia.
+  - rewrite (nth_error_insert_at (S sd) n (insert_at d 1 bs)) by (rewrite insert_at_length; lia).
+    rewrite (nth_error_insert_at d 1 (insert_at sd n bs)) by (rewrite insert_at_length; lia).
+    rewrite !nth_error_insert_at by lia. nat_cases; try lia; try reflexivity; f_equal; lia.
+Qed.
+
+Lemma remove_remove_comm (I : list Z) sd d :
+  let md := if (sd <? d)%nat then (d - 1)%nat else d in
+  let nsd := if (sd <? d)%nat then sd else S sd in
+  nth_error (remove_at nsd I) md = nth_error I d /\
+  nth_error (remove_at d I) sd = nth_error I nsd /\
+  remove_at md (remove_at nsd I) = remove_at sd (remove_at d I).
+Proof.
+  intros md nsd. subst md nsd.
+  destruct (sd <? d)%nat eqn:E; [apply Nat.ltb_lt in E|apply Nat.ltb_ge in E]; repeat split.
+  - rewrite nth_error_remove_at. nat_cases; try lia; try reflexivity; f_equal; lia.
+  - rewrite nth_error_remove_at. nat_cases; try lia; try reflexivity; f_equal; lia.
+  - apply list_ext. intros k. rewrite !nth_error_remove_at. nat_cases; try lia; try reflexivity; f_equal; lia.
+  - rewrite nth_error_remove_at. nat_cases; try lia; try reflexivity; f_equal; lia.
+  - rewrite nth_error_remove_at. nat_cases; try lia; try reflexivity; f_equal; lia.
+  - apply list_ext. intros k. rewrite !nth_error_remove_at. nat_cases; try lia; try reflexivity; f_equal; lia.
+Qed.
+
+Section Unsqueeze.
+  Variables (sd : nat) (bs0 : list Z) (parts : list arr) (bs : list Z).
+  Hypothesis Hne : parts <> [].
+  Hypothesis Hshape : Forall (fun p => shape_of p = Some bs) parts.
+  Hypothesis Hplain : Forall (fun p => is_stack p = false) parts.
+  Hypothesis Hsd : (sd <= List.length bs)%nat.
+  Let self := Stack sd bs0 parts.
+
+  (* lazy.unsqueeze(d) = dense.unsqueeze(d), every rank, every stack dim, every d (also negative spellings via norm) *)
+  Theorem unsqueeze_ok fuel d a' :
+    (d <= S (List.length bs))%nat ->
+    lz_unsqueeze (S fuel) self (Z.of_nat d) = Ok a' -> equiv_in a' (Unsq d self).
+  Proof.
+    intros Hd H. cbn [lz_unsqueeze] in H. fold self in H. unfold self in H.
+    rewrite (shape_of_stack sd bs0 parts bs Hne Hshape Hsd) in H.
+    rewrite insert_at_length in H by exact Hsd.
+    replace (Z.of_nat d <? 0) with false in H by lia.
+    replace ((Z.of_nat (S (List.length bs)) <? Z.of_nat d) || (Z.of_nat d <? 0)) with false in H by lia.
+    rewrite Nat2Z.id in H.
+    set (md := if (sd <? d)%nat then (d - 1)%nat else d) in *.
+    set (nsd := if (sd <? d)%nat then sd else S sd) in *.
+    rewrite (rmap_map_ok _ (fun m => Unsq md m)) in H.
+    2:{ intros m Hm. rewrite (proj1 (Forall_forall _ _) Hplain m Hm). reflexivity. }
+    cbn [rbind] in H. inversion H; subst a'. clear H.
+    assert (Hmd : (md <= List.length bs)%nat) by (subst md; nat_cases; lia).
+    assert (HshapeU : Forall (fun p => shape_of p = Some (insert_at md 1 bs)) (map (fun m => Unsq md m) parts)).
+    { apply Forall_forall. intros p Hp. apply in_map_iff in Hp. destruct Hp as [m [Em Hm]]. subst p.
+      cbn [shape_of]. rewrite (proj1 (Forall_forall _ _) Hshape m Hm). cbn [opt_bind].
+      replace (md <=? List.length bs)%nat with true by (symmetry; apply Nat.leb_le; exact Hmd). reflexivity. }
+    assert (HneU : map (fun m => Unsq md m) parts <> []) by (destruct parts; [congruence|discriminate]).
+    assert (Hnsd : (nsd <= List.length (insert_at md 1%Z bs))%nat) by (rewrite insert_at_length by exact Hmd; subst nsd; nat_cases; lia).
+    split.
+    - rewrite (shape_of_stack nsd bs0 _ _ HneU HshapeU Hnsd).
+      cbn [shape_of]. fold self. unfold self. rewrite (shape_of_stack sd bs0 parts bs Hne Hshape Hsd). cbn [opt_bind].
+      rewrite insert_at_length by exact Hsd.
+      replace (d <=? S (List.length bs))%nat with true by (symmetry; apply Nat.leb_le; exact Hd).
+      unfold lenZ. rewrite map_length. fold (lenZ parts). f_equal.
+      apply (insert_insert_comm bs sd d (lenZ parts) Hsd Hd).
+    - intros sh I Hsh Hin. rewrite at_stack. cbn [at_].
+      destruct (remove_remove_comm I sd d) as [A [B C]]. fold md nsd in A, B, C.
+      destruct (nth_error I d) as [z|] eqn:Ez.
+      + destruct (z =? 0) eqn:Ez0.
+        * unfold self. rewrite at_stack. rewrite B.
+          destruct (nth_error I nsd) as [k|]; [|reflexivity].
+          rewrite nthZ_map. destruct (nthZ parts k) as [m|]; [|reflexivity]. cbn [option_map at_].
+          rewrite A, Ez0, C. reflexivity.
+        * destruct (nth_error I nsd) as [k|]; [|reflexivity].
+          rewrite nthZ_map. destruct (nthZ parts k) as [m|]; [|reflexivity]. cbn [option_map at_].
+          rewrite A, Ez0. reflexivity.
+      + destruct (nth_error I nsd) as [k|]; [|reflexivity].
+        rewrite nthZ_map. destruct (nthZ parts k) as [m|]; [|reflexivity]. cbn [option_map at_].
+        rewrite A. reflexivity.
+  Qed.
+End Unsqueeze.
